@@ -427,7 +427,139 @@ def check_corpus(item):
     return cc, out, None
 
 
+# ---- templates whose reading FM-94 leaves open: the library's own reading, compiled against not compiled ------------
+class LibCase(object):
+    """A template the reference model does not build bytes for (DESIGN 10-2: a class 31 replication factor inside an open
+    201 / 202 / 207 scope, 205 / 206 inside an open 204 scope).  The two paths of the library must still agree on it: the
+    flat values are laid out by the harness for the library's reading, the non-compiling encoder makes the bytes."""
+
+    def __init__(self, mv, ids, rows, compressed, form):
+        self.mv, self.ids, self.rows, self.compressed, self.form = mv, ids, rows, compressed, form
+
+    def key(self):
+        return hashlib.sha1(repr((self.mv, self.ids, self.rows, self.compressed)).encode()).hexdigest()[:20]
+
+    def summary(self):
+        return {'master_table_version': self.mv, 'descriptors': ['%06d' % i for i in self.ids], 'compressed': self.compressed,
+                'n_subsets': len(self.rows), 'form': self.form, 'values_subset0': self.rows[0][:12]}
+
+    def to_json(self):
+        return {'kind': 'library_reading', 'mv': self.mv, 'ids': self.ids, 'rows': self.rows, 'compressed': self.compressed,
+                'form': self.form}
+
+    @staticmethod
+    def from_json(d):
+        return LibCase(d['mv'], list(d['ids']), d['rows'], d['compressed'], d.get('form', ''))
+
+    def flat(self):
+        meta = frame.default_meta(4)
+        meta.update({'master_table_version': self.mv, 'n_subsets': len(self.rows), 'is_compressed': self.compressed})
+        return rmessage.flat_json(meta, self.ids, self.rows)
+
+
+def _lib_value(el, ds=0, y=0, raw=1):
+    """the user value whose raw is `raw` for a numeric element under a 202 scale change ds and a 207YYY of y"""
+    from fractions import Fraction
+    scale = el.scale + ds + y
+    v = Fraction(raw + el.ref * 10 ** y) / Fraction(10) ** scale
+    return int(v) if scale == 0 and v.denominator == 1 else float(v)
+
+
+def gen_lib_case(ch):
+    mv = ch.choice(gmsg.QUICK_VERSIONS)
+    pl = gpool.pool_for(mv)
+    B = pl.tables.B
+    nsub = ch.int(1, 3)
+    compressed = ch.bool(2, 5)
+    form = ch.weighted([(3, 'replication_under_operator'), (1, '205_206_under_204')])
+    if form == 'replication_under_operator':
+        op = ch.weighted([(3, '201'), (2, '202'), (2, '207')])
+        dw = ds = y = 0
+        if op == '201':
+            dw = ch.choice([1, 2, 8, 4])
+            open_, close = 201000 + 128 + dw, 201000
+        elif op == '202':
+            ds = ch.choice([1, 2])
+            open_, close = 202000 + 128 + ds, 202000
+        else:
+            y = ch.int(1, 3)
+            open_, close = 207000 + y, 207000
+        factor = ch.weighted([(3, 31001), (1, 31000), (1, 31002)])
+        body = [ch.choice(pl.num_all) for _ in range(ch.int(1, 3))]
+        pre = [ch.choice(pl.num_all)] if ch.bool(1, 3) else []
+        inner_pre = [ch.choice(pl.num_all)] if ch.bool(1, 3) else []
+        post = [ch.choice(pl.num_all)] if ch.bool(1, 3) else []
+        fixed = ch.bool(1, 4)
+        if fixed:
+            k_all = [ch.int(1, 3)] * nsub
+            rep = [100000 + len(body) * 1000 + k_all[0]]
+        else:
+            kmax = 1 if factor == 31000 else 3
+            k0 = ch.int(0, kmax)
+            k_all = [k0 if compressed else ch.int(0, kmax) for _ in range(nsub)]
+            rep = [100000 + len(body) * 1000, factor]
+        ids = pre + [open_] + inner_pre + rep + body + [close] + post
+        rows = []
+        for j in range(nsub):
+            raw = ch.int(0, 3)
+            row = [_lib_value(B[e], raw=raw) for e in pre]
+            row += [_lib_value(B[e], ds, y, raw) for e in inner_pre]
+            if not fixed:
+                row.append(k_all[j])
+            row += [_lib_value(B[e], ds, y, raw) for e in body] * k_all[j]
+            row += [_lib_value(B[e], raw=raw) for e in post]
+            rows.append(row)
+    else:
+        yy = ch.int(1, 8)
+        e1, e2 = ch.choice(pl.num_all), ch.choice(pl.num_all)
+        nb = ch.int(1, 4)
+        w = ch.int(1, 12)
+        local = ch.choice(sorted(pl.local_undefined)) if pl.local_undefined else 63255
+        ids = [204000 + yy, 31021, e1, 205000 + nb, 206000 + w, local, e2, 204000]
+        rows = []
+        for j in range(nsub):
+            a = ch.int(0, (1 << yy) - 2) if yy > 1 else ch.int(0, 1)
+            rows.append([1, a, _lib_value(B[e1]), 'ab'[:nb].ljust(nb), ch.int(0, max(0, (1 << w) - 2)), a, _lib_value(B[e2])])
+    return LibCase(mv, ids, rows, compressed, form)
+
+
+_LIB_CODERS = {}
+
+
+def check_lib_case(lc):
+    out = Outcome()
+    out.nontrivial = True
+    out.classes = ['library_reading', 'library_reading_' + lc.form, 'compressed' if lc.compressed else 'uncompressed']
+    if 'c' not in _LIB_CODERS:
+        _LIB_CODERS['c'] = make_coders(2)
+    coders = _LIB_CODERS['c']
+    flat = lc.flat()
+    basee = outcome_of_encode(plain()['enc'], flat)
+    if basee[0] != 'ok':
+        out.classes.append('library_reading_plain_encoder_refuses')
+    for name in ('enc', 'enc_json'):
+        d = diff_outcomes(basee, outcome_of_encode(coders[name], flat))
+        if d is not None:
+            out.fail("library's reading: encoding with template compilation%s differs (%s)" % (
+                ' after a JSON save/load' if name == 'enc_json' else '', d.get('what', 'outcome')), difference=d, descriptors=lc.ids)
+            return out
+    if basee[0] == 'ok':
+        b = basee[2]
+        based = outcome_of_decode(plain()['dec'], b)
+        if based[0] == 'ok':
+            out.classes.append('library_reading_decodes')
+        for name in ('dec', 'dec_json'):
+            d = diff_outcomes(based, outcome_of_decode(coders[name], b))
+            if d is not None:
+                out.fail("library's reading: decoding with template compilation%s differs (%s)" % (
+                    ' after a JSON save/load' if name == 'dec_json' else '', d.get('what', 'outcome')), difference=d, descriptors=lc.ids)
+                return out
+    return out
+
+
 def load_case(d):
+    if d.get('kind') == 'library_reading':
+        return LibCase.from_json(d)
     if d.get('kind') == 'program':
         return ProgramCase.from_json(d)
     if d.get('kind') == 'history':
@@ -437,6 +569,8 @@ def load_case(d):
 
 
 def check_any(case):
+    if isinstance(case, LibCase):
+        return check_lib_case(case)
     if isinstance(case, ProgramCase):
         return check_program(case)
     return check_history(case)
@@ -489,6 +623,8 @@ def run(tier, seed):
     opts = gen_opts(tier)
     n = 1200 if tier == 'quick' else 60000
     runner.run_generated(rep, lambda ch: gen_history(ch, opts), check_history, n, workers, stage='histories')
+    # templates FM-94 leaves open, in the library's own reading (compiled against not compiled only)
+    runner.run_generated(rep, gen_lib_case, check_lib_case, 600 if tier == 'quick' else 20000, workers, stage='library reading')
     # Table D programs
     versions = [v for v in rtables.available_master_versions() if v >= 19]
     items = []
@@ -519,7 +655,8 @@ def run(tier, seed):
     rep.required_classes = ['cache_0', 'cache_1', 'cache_2', 'cache_200', 'eviction', 'op_201', 'op_202', 'op_203_applied', 'op_204',
                             'op_205', 'op_206', 'op_207', 'op_208', 'op_221_skipped', 'op_222_qa', 'op_223255', 'op_224255',
                             'op_225255', 'op_232255', 'op_235', 'op_236', 'op_237000', 'op_237255', 'op_zero_rep', 'op_nested_rep',
-                            'op_same_template_other_data', 'op_near_twin_template', 'op_bitmap_in_rep', 'table_d_program', 'table_d_decodes', 'corpus']
+                            'op_same_template_other_data', 'op_near_twin_template', 'op_bitmap_in_rep', 'table_d_program', 'table_d_decodes', 'corpus',
+                            'library_reading_replication_under_operator', 'library_reading_205_206_under_204', 'library_reading_decodes']
     fuzz.run_structured(rep, 'checks.c08', _fuzz_gen, tier)
     return rep.finish()
 
